@@ -57,6 +57,8 @@ def run_case(args):
         o["LinearRF"] = False
         o["BendingRadius"] = 200.0      # keeps the synchronous phase ~ 0 (the statement is about small amplitudes)
     P = physics.derive({k: v for k, v in o.items()})
+    if i % 4 == 3:
+        o["alpha1"] = float("%.3g" % (r.choice([0.125, -0.125]) * P["alpha0"]))     # an eighth of alpha0: second-order drift of 6e-5 of the first-order one at 1 sigma
     if i % 6 == 1:
         # the step size given per revolution (overrides StepsPerTs, which stays at an unrelated value): the configured angle is
         # 2 pi over the number of steps per synchrotron period that implies; the period is closed at the nearest whole step
